@@ -330,6 +330,7 @@ fn exec_steady(sc: &Scenario) -> Report {
             pb
         };
         let via_update = sc.c("via_update") == 1;
+        let near_len = sc.c("near_len") == 1;
         if sc.c("base_pos") > 0 && sc.c("base_builder") == 0 {
             sched::advance_quiet(1_000_000);
             let bp = sc.c("base_pos");
@@ -360,6 +361,13 @@ fn exec_steady(sc: &Scenario) -> Report {
                     sched::advance_quiet(ms * unit);
                     let el_ms = (sched::clock_ns() - base_ns) / unit;
                     let p = base_pos + if k > 0 { el_ms * k } else { el_ms / m };
+                    // optionally the end is always near: the length stays a few hundred steps
+                    // ahead of the position (far above 2^53 the two are not exact in f64; what
+                    // remains is, as an integer)
+                    let slack = 1 + (i as u64 * 37 + sc.seed % 1000) % 3000;
+                    if near_len {
+                        let _ = call(|| pb.set_length(p.saturating_add(slack)));
+                    }
                     if let Err(e) = call(|| {
                         if via_update {
                             // the closure API stores the position; update() ticks
@@ -392,6 +400,25 @@ fn exec_steady(sc: &Scenario) -> Report {
                         break;
                     }
                     r.probe("steady_updates");
+                    if near_len && p < u64::MAX - slack {
+                        // eta == remaining / rate at this instant
+                        let eta = match call(|| pb.eta()) {
+                            Ok(x) => x.as_secs_f64(),
+                            Err(e) => {
+                                r.violate("C09.no_panic", format!("{at}: eta panicked: {e}"));
+                                break;
+                            }
+                        };
+                        let want = slack as f64 / ps;
+                        if !((eta - want).abs() <= 2e-9 + want * 1e-9) {
+                            r.violate(
+                                "C09.eta_relation",
+                                format!("{at}: position {p}, length {}, {slack} steps remain at {ps} steps/s: eta() = {eta} s, expected {want} s", p + slack),
+                            );
+                            break;
+                        }
+                        r.probe("near_len_eta_checks");
+                    }
                 }
                 "reset_eta" => {
                     let _ = call(|| pb.reset_eta());
@@ -654,7 +681,7 @@ impl Check for C09 {
         "C09"
     }
     fn rule_text(&self) -> String {
-        "laws: 1..60 updates (gap, position) with gaps log-uniform 1 ms..3 days plus exact cadences, positions up to 1e15, reset_eta/reset_elapsed/reset/backwards seeks/set_length/finish/abandon at random places, bars built with_elapsed, queries at update instants and during stalls; checked: per_sec finite and >= 0 and eta/duration well formed at every instant strictly after creation or the last reset, per_sec <= largest sample rate since the last reset (an abandoned bar: <= the largest sample rate since creation unless the bar was told to forget), successive stall queries non-increasing, eta == remaining/per_sec (0 when finished / unknown length / no progress), duration == elapsed + eta, all at one frozen instant. steady: every update lies exactly on p = p0 + r (t - t0) (k steps per ms with whole-ms gaps, or one step per m ms with gaps multiple of m; in one run out of four the unit is the microsecond, so that updates come closer together than 1 ms) with irregular cadence => |per_sec - r| <= 1e-7 r at every update. twins: two bars with different pre-histories are synchronised (same position at the same instant: recorded by both estimators; or - before reset() - not at all; or - before reset_eta - reached by one of them through a position update its estimator never saw because the position rate limiter skipped the tick), forget (reset_eta / reset / backwards seek, one seek in three through `with_position` on a clone) and get the same post-history => bit-identical per_sec and eta. ticked: a bar (hidden or visible) under a steady ticker of 1/10/50 ms is moved along a line by set_position only (with a ticker installed position calls do not feed the estimator: the ticker does); after 20 ticks and 20 steps per_sec must lie within 50 % of the true rate. The oracle states laws only: a different estimator that satisfies them passes. Non-trivial: laws = >= 2 recorded samples; steady = >= 2 updates; twins = >= 2 post operations. Distinct = distinct scenario hash.".into()
+        "laws: 1..60 updates (gap, position) with gaps log-uniform 1 ms..3 days plus exact cadences, positions up to 1e15, reset_eta/reset_elapsed/reset/backwards seeks/set_length/finish/abandon at random places, bars built with_elapsed, queries at update instants and during stalls; checked: per_sec finite and >= 0 and eta/duration well formed at every instant strictly after creation or the last reset, per_sec <= largest sample rate since the last reset (an abandoned bar: <= the largest sample rate since creation unless the bar was told to forget), successive stall queries non-increasing, eta == remaining/per_sec (0 when finished / unknown length / no progress), duration == elapsed + eta, all at one frozen instant. steady (in one run out of three the length is kept 1..3000 steps ahead of the position, also far above 2^53, and eta == remaining/per_sec is checked there as well): every update lies exactly on p = p0 + r (t - t0) (k steps per ms with whole-ms gaps, or one step per m ms with gaps multiple of m; in one run out of four the unit is the microsecond, so that updates come closer together than 1 ms) with irregular cadence => |per_sec - r| <= 1e-7 r at every update. twins: two bars with different pre-histories are synchronised (same position at the same instant: recorded by both estimators; or - before reset() - not at all; or - before reset_eta - reached by one of them through a position update its estimator never saw because the position rate limiter skipped the tick), forget (reset_eta / reset / backwards seek, one seek in three through `with_position` on a clone) and get the same post-history => bit-identical per_sec and eta. ticked: a bar (hidden or visible) under a steady ticker of 1/10/50 ms is moved along a line by set_position only (with a ticker installed position calls do not feed the estimator: the ticker does); after 20 ticks and 20 steps per_sec must lie within 50 % of the true rate. The oracle states laws only: a different estimator that satisfies them passes. Non-trivial: laws = >= 2 recorded samples; steady = >= 2 updates; twins = >= 2 post operations. Distinct = distinct scenario hash.".into()
     }
     fn assumptions(&self) -> Vec<String> {
         vec![
@@ -739,6 +766,7 @@ impl Check for C09 {
                 }
                 sc.set("base_builder", *rng.pick(&[0, 0, 0, 1, 1, 2]));
                 sc.set("via_update", rng.chance(1, 4) as u64);
+                sc.set("near_len", rng.chance(1, 3) as u64);
                 if rng.chance(1, 2) {
                     sc.set("steps_per_ms", *rng.pick(&[1, 2, 7, 1000, 1_000_000]));
                 } else {
